@@ -3,6 +3,7 @@
    machine-integer side condition (every value fits index_type) is the predicate c14_fits used
    by the theorems and by the generator.  Each definition names the C++ loop it transcribes. *)
 From Coq Require Import List ZArith Bool.
+From DuneV Require Import C14_Params.   (* literals re-read from the C++ sources on every run: tools/params.d/C14.py via checks/C14.py *)
 Import ListNotations.
 Local Open Scope Z_scope.
 
@@ -54,7 +55,7 @@ Definition c14_extents_eqb (a b : list Z) : bool :=
   Nat.eqb (length a) (length b) && forallb (fun ab => fst ab =? snd ab) (combine a b).
 
 (* product(): prod = 1; for i: prod *= extent(i) *)
-Definition c14_product (E : list Z) : Z := fold_left Z.mul E 1.
+Definition c14_product (E : list Z) : Z := fold_left Z.mul E c14_param_product_init.
 
 (* ------------------------------------------------------------------ layout_right / layout_left *)
 (* the common loop body  value = indices[k] + extent(k) * value *)
@@ -63,13 +64,13 @@ Definition c14_horner_step (v : Z) (ie : Z * Z) : Z := fst ie + snd ie * v.
 (* layout_right::operator(): value = indices.front(); for j in 0..rank-2: value = indices[j+1] + extent(j+1)*value *)
 Definition c14_map_right (E idx : list Z) : Z :=
   match idx with
-  | [] => 0                                           (* operator()() of rank 0 *)
+  | [] => c14_param_right_rank0_offset                (* operator()() of rank 0: `return 0;` *)
   | i0 :: rest => fold_left c14_horner_step (combine rest (tl E)) i0
   end.
 (* layout_left::operator(): value = indices.back(); for r in 1..rank-1: j = rank-r; value = indices[j-1] + extent(j-1)*value *)
 Definition c14_map_left (E idx : list Z) : Z :=
   match rev idx with
-  | [] => 0
+  | [] => c14_param_left_rank0_offset
   | il :: rest => fold_left c14_horner_step (combine rest (tl (rev E))) il
   end.
 (* all values `value` takes during the loop (for the machine-integer lemma) *)
@@ -88,13 +89,16 @@ Definition c14_stride_left (E : list Z) (i : nat) : Z := fold_left Z.mul (firstn
 (* ------------------------------------------------------------------ layout_stride *)
 (* operator(): ((index_type(ii) * strides_[r]) + ... + 0)  -- a right fold *)
 Definition c14_map_stride (St idx : list Z) : Z :=
-  fold_right (fun is acc => fst is * snd is + acc) 0 (combine idx St).
+  match idx with
+  | [] => c14_param_stride_rank0_offset               (* operator()() of rank 0 *)
+  | _ => fold_right (fun is acc => fst is * snd is + acc) 0 (combine idx St)
+  end.
 (* size(extents, strides): rank 0 -> 1; product()==0 -> 0; else result = 1; result += (extent(r)-1)*strides[r] *)
 Definition c14_span_size_stride (E St : list Z) : Z :=
   match E with
-  | [] => 1
-  | _ => if c14_product E =? 0 then 0
-         else fold_left (fun res es => res + (fst es - 1) * snd es) (combine E St) 1
+  | [] => c14_param_stride_rank0_span
+  | _ => if c14_product E =? 0 then c14_param_stride_empty_span
+         else fold_left (fun res es => res + (fst es - 1) * snd es) (combine E St) c14_param_stride_span_init
   end.
 (* is_exhaustive(): rank()==0 || (required_span_size() > 0 && required_span_size() == extents().product()) *)
 Definition c14_is_exhaustive_stride (E St : list Z) : bool :=
@@ -127,8 +131,20 @@ Definition c14_stride (m : c14_mapping) (r : nat) : Z :=
 Definition c14_is_exhaustive (m : c14_mapping) : bool :=
   match c14_lay m with
   | C14_Stride => c14_is_exhaustive_stride (c14_ext m) (c14_str m)
-  | _ => true
+  | C14_Left => c14_param_left_is_exhaustive          (* static constexpr bool is_exhaustive () { return true; } *)
+  | C14_Right => c14_param_right_is_exhaustive
   end.
+(* the constant answers of the other queries, as written in the three headers *)
+Definition c14_is_unique (l : c14_layout) : bool :=
+  match l with C14_Left => c14_param_left_is_unique | C14_Right => c14_param_right_is_unique | C14_Stride => c14_param_stride_is_unique end.
+Definition c14_is_strided (l : c14_layout) : bool :=
+  match l with C14_Left => c14_param_left_is_strided | C14_Right => c14_param_right_is_strided | C14_Stride => c14_param_stride_is_strided end.
+Definition c14_is_always_unique (l : c14_layout) : bool :=
+  match l with C14_Left => c14_param_left_is_always_unique | C14_Right => c14_param_right_is_always_unique | C14_Stride => c14_param_stride_is_always_unique end.
+Definition c14_is_always_exhaustive (l : c14_layout) : bool :=
+  match l with C14_Left => c14_param_left_is_always_exhaustive | C14_Right => c14_param_right_is_always_exhaustive | C14_Stride => c14_param_stride_is_always_exhaustive end.
+Definition c14_is_always_strided (l : c14_layout) : bool :=
+  match l with C14_Left => c14_param_left_is_always_strided | C14_Right => c14_param_right_is_always_strided | C14_Stride => c14_param_stride_is_always_strided end.
 Definition c14_strides_of (m : c14_mapping) : list Z := map (c14_stride m) (seq 0 (length (c14_ext m))).
 
 (* conversions between mappings *)
@@ -304,3 +320,73 @@ Definition c14_span_index (s : c14_span) (i : Z) : Z := c14_sp_off s + i.
 Definition c14_span_front (s : c14_span) : option Z := if c14_sp_len s =? 0 then None else Some (c14_sp_off s).
 Definition c14_span_back (s : c14_span) : option Z :=
   if c14_sp_len s =? 0 then None else Some (c14_sp_off s + (c14_sp_len s - 1)).
+
+(* static extent of the result of the compile-time subspan<Offset,Count>():
+   subspan_extent(O, C) = (C != dynamic_extent) ? C : (Extent != dynamic_extent) ? Extent - O : dynamic_extent *)
+Definition c14_subspan_extent (ext : option Z) (o : Z) (c : option Z) : option Z :=
+  match c with
+  | Some n => Some n
+  | None => match ext with Some e => Some (e - o) | None => None end
+  end.
+(* begin() .. end(): the positions visited by iteration; size_bytes() = size() * sizeof(element_type) *)
+Definition c14_span_elems (s : c14_span) : list Z := map (fun k => c14_sp_off s + k) (c14_zrange (c14_sp_len s)).
+Definition c14_span_size_bytes (s : c14_span) (elem_size : Z) : Z := c14_sp_len s * elem_size.
+
+(* ------------------------------------------------------------------ index_type(v): conversion to a machine integer type *)
+Definition c14_wrap (bits : Z) (signed : bool) (v : Z) : Z :=
+  let r := v mod 2 ^ bits in
+  if signed && (2 ^ (bits - 1) <=? r) then r - 2 ^ bits else r.
+
+(* ------------------------------------------------------------------ constructors / conversions of views and arrays *)
+(* mdspan(p, exts...) / mdspan(p, array|span of extents) / mdspan(p, extents): mapping_type(extents_type(...)),
+   only for layouts whose mapping is constructible from extents (left, right) *)
+Definition c14_mdspan_of_extents (l : c14_layout) (p : c14_pattern) (vals : list Z) (h : Z) : c14_view :=
+  (h, C14_Mapping l (c14_extents_list p (c14_extents_ctor p vals)) []).
+(* mdspan converting constructor: data handle kept, mapping converted *)
+Definition c14_view_convert (l : c14_layout) (x : c14_view) : option c14_view :=
+  match c14_relayout l (snd x) with Some m' => Some (fst x, m') | None => None end.
+Section Arrays.
+  Context {T : Type}.
+  (* mdarray(extents|mapping [, value]) : container of required_span_size copies of value *)
+  Definition c14_mdarray_fill (m : c14_mapping) (v : T) : c14_array T := (c14_mdarray_new m v, m).
+  (* mdarray(extents|mapping, container [, alloc]) : the container is adopted as it is *)
+  Definition c14_mdarray_of_container (m : c14_mapping) (c : list T) : c14_array T := (c, m).
+  (* converting constructor mdarray(const mdarray<...>& other): container_(other.container_), mapping_(other.mapping_) *)
+  Definition c14_mdarray_convert (l : c14_layout) (x : c14_array T) : option (c14_array T) :=
+    match c14_relayout l (snd x) with Some m' => Some (fst x, m') | None => None end.
+  (* to_mdspan(): mdspan(container_data(), mapping()) -- the storage IS the container, data handle = its first cell *)
+  Definition c14_to_mdspan (x : c14_array T) : list T * c14_view := (fst x, (0, snd x)).
+  Definition c14_array_set (x : c14_array T) (idx : list Z) (v : T) : option (c14_array T) :=
+    match c14_mdarray_set (fst x) (snd x) idx v with Some c => Some (c, snd x) | None => None end.
+  (* operator== of mdarray: mappings equal and containers equal *)
+  Definition c14_array_eqb (eqT : T -> T -> bool) (x y : c14_array T) : bool :=
+    c14_mapping_eqb (snd x) (snd y) && Nat.eqb (length (fst x)) (length (fst y)) &&
+    forallb (fun ab => eqT (fst ab) (snd ab)) (combine (fst x) (fst y)).
+End Arrays.
+(* layout_stride::mapping == other strided mapping (after fix 652a2a1): extents equal and stride(r) equal for all r *)
+Definition c14_mapping_eqb_cross (a b : c14_mapping) : bool :=
+  match c14_ext a with
+  | [] => Nat.eqb (length (c14_ext b)) 0
+  | _ => c14_extents_eqb (c14_ext a) (c14_ext b) && c14_extents_eqb (c14_strides_of a) (c14_strides_of b)
+  end.
+
+(* ------------------------------------------------------------------ the Horner loops in index_type arithmetic *)
+(* value = indices[k] + extent(k) * value  with every operation performed in a `bits`-wide (un)signed integer type *)
+Definition c14_horner_step_w (bits : Z) (signed : bool) (v : Z) (ie : Z * Z) : Z :=
+  c14_wrap bits signed (fst ie + c14_wrap bits signed (snd ie * v)).
+Definition c14_map_right_w (bits : Z) (signed : bool) (E idx : list Z) : Z :=
+  match idx with
+  | [] => c14_param_right_rank0_offset
+  | i0 :: rest => fold_left (c14_horner_step_w bits signed) (combine rest (tl E)) i0
+  end.
+Definition c14_map_left_w (bits : Z) (signed : bool) (E idx : list Z) : Z :=
+  match rev idx with
+  | [] => c14_param_left_rank0_offset
+  | il :: rest => fold_left (c14_horner_step_w bits signed) (combine rest (tl (rev E))) il
+  end.
+(* layout_stride: ((index_type(ii) * strides_[r]) + ... + 0) in index_type arithmetic *)
+Definition c14_map_stride_w (bits : Z) (signed : bool) (St idx : list Z) : Z :=
+  match idx with
+  | [] => c14_param_stride_rank0_offset
+  | _ => fold_right (fun is acc => c14_wrap bits signed (c14_wrap bits signed (fst is * snd is) + acc)) 0 (combine idx St)
+  end.
